@@ -77,6 +77,19 @@ class Check:
     def error(self, msg: str) -> None:
         self.errors.append(msg)
 
+    def guard(self, fn, *args, **kw):
+        """Run one rule group.  A rule that cannot interpret the (changed) code records an
+        analysis error and the remaining rule groups still run, so that one unreadable
+        function does not hide violations elsewhere."""
+        from .index import AnalysisError
+        try:
+            return fn(*args, **kw)
+        except AnalysisError as e:
+            self.error(str(e))
+        except Exception as e:  # a crash of one rule is an analysis error, never a violation
+            self.error(f"rule {getattr(fn, '__name__', fn)} crashed: {type(e).__name__}: {e}")
+        return None
+
     # ---------------------------------------------------------------- finishing
     def finish(self, seed: int = 0, quiet: bool = False, write: bool = True, mutation: Optional[dict] = None) -> int:
         for rule, n in self.minimums.items():
